@@ -476,7 +476,7 @@ def aws_model(lines, unterminated_last, failat, fault):
 
 AWS_KINDS = ['dup-secret', 'unknown-line', 'no-equals', 'missing-id', 'dup-id',
              'noeol-missing-id', 'strdup-fail', 'empty-line', 'success',
-             'fail-before-secret', 'secret-then-eof-garbage']
+             'fail-before-secret', 'secret-then-eof-garbage', 'bare-cr']
 
 
 def gen_aws(rnd, n, add):
@@ -537,6 +537,13 @@ def gen_aws(rnd, n, add):
             lines = rnd.choice([[sline, iline], [iline, sline]])
             expect = 0
             after = False
+        elif kind == 'bare-cr':
+            # two records in ONE physical line, separated by a bare CR: the line
+            # ends at the CR, the rest of it is not a record (so a key is missing)
+            first, second = rnd.choice([(iline, sline), (sline, iline)])
+            lines = [first]
+            barecr = first + '\r' + second
+            after = first is sline
         else:   # fail-before-secret
             lines = rnd.choice([['junk', sline], [iline, iline, sline], ['X=y', sline, iline]])
             after = False
@@ -544,6 +551,8 @@ def gen_aws(rnd, n, add):
         content = eol.join(lines)
         if not unterminated:
             content += eol
+        if kind == 'bare-cr':
+            content = barecr + eol
         # the model must reproduce the hand-written expectation of the fault-free kinds
         m_ret, m_sec = aws_model(lines, unterminated, failat, None)
         assert m_ret == expect and (m_ret == -1 and m_sec) == after, (kind, lines, m_ret, m_sec)
